@@ -7,14 +7,3 @@ NOT_APPLICABLE = {
     "input enumeration, which are other technique families (DESIGN.md section 6)",
 }
 
-REGISTRY = {
-    "C03": {
-        "strength": "partial",
-        "technique": "typestate exploration of the model extracted from HttpStream's AST (path-effect enumeration, helper inlining) + predicate table",
-        "claim": "every reachable transition of the extracted HttpStream model (all state functions x all HTTP events the environment "
-        "automaton can deliver, addon effects havocked at hooks) respects: requestheaders first; never response and error; at most once / "
-        "ordered hooks; terminal flows have exactly one outcome and are not live; close handling yields protocol errors.",
-        "note": "Model = over-approximation extracted from source on every run; named refinements are printed in the evidence. "
-        "Loops unrolled once; lower layers' event order is an environment automaton stated in the evidence.",
-    },
-}
